@@ -206,20 +206,30 @@ def tensor_construction_inputs(cx, theory):
 
 
 @harness("C15", "cutoff_roundtrip",
-         quick=[dict(N=3)], thorough=[dict(N=3)],
+         quick=[dict(N=3), dict(N=2, units="1/cm")], thorough=[dict(N=3), dict(N=2, units="1/cm"), dict(N=3, units="eV")],
          functions=[F_H + ":Hamiltonian.subtract_cutoff_coupling", F_H + ":Hamiltonian.recover_cutoff_coupling",
                     F_H + ":Hamiltonian.remove_cutoff_coupling"],
-         bound="N=3 (3 couplings, 27 branch combinations; N=4 has 729 and exceeds the path budget): couplings and cut-off symbolic, every branch of |J|<=cut / sign explored: "
+         bound="with units=u the whole round trip runs inside energy_units(u), the cut-off given in those units; N=3 (3 couplings, 27 branch combinations; N=4 has 729 and exceeds the path budget): couplings and cut-off symbolic, every branch of |J|<=cut / sign explored: "
                "subtract (or remove) followed by recover restores the Hamiltonian; the removed part plus the kept "
                "part is the original",
          out="")
-def cutoff_roundtrip(cx, N):
+def cutoff_roundtrip(cx, N, units=None):
+    import contextlib
+    import quantarhei as qr
+    with (qr.energy_units(units) if units else contextlib.nullcontext()):
+        _cutoff_roundtrip(cx, N, units)
+
+
+def _cutoff_roundtrip(cx, N, units):
     import quantarhei as qr
     with cx.concrete():
         ham = qr.Hamiltonian(data=numpy.diag(numpy.arange(N, dtype=float)))
     H = cx.real_symmetric("H", N)
     cut = cx.real("cut", 0.0, 0.5)
     cx.assume(cut >= 0, "coupling cut-off >= 0")
+    if units:
+        # the cut-off is given in the units of the surrounding context (the Hamiltonian's couplings are read in them)
+        cut = qr.Manager().convert_energy_2_current_u(cut)
     for how in ("subtract", "remove"):
         ham._data = H.copy()
         ham._has_remainder_coupling = False
@@ -233,3 +243,68 @@ def cutoff_roundtrip(cx, N):
         ham.recover_cutoff_coupling()
         cx.prove_eq(how + "/recovered", ham._data, H)
         cx.prove(how + "/flag_cleared", ham._has_remainder_coupling is False)
+
+
+@harness("C15", "population_corrections_repeat",
+         quick=[dict(corrections=0), dict(corrections=1)], thorough=[dict(corrections=c) for c in (0, 1)],
+         functions=[F_PP + ":PopulationPropagator.get_PropagationMatrix",
+                    F_PP + ":PopulationPropagator._split_relaxation_matrix", F_PP + ":PopulationPropagator.propagate"],
+         bound="N=2 rate matrix given by a real eigen-decomposition (eig stub as in C17), sub-axis of 3 points: "
+               "get_PropagationMatrix(sub, corrections=0 / 1, exact=True) leaves the caller's rate matrix and the "
+               "propagator's copy unchanged, returns the diagonal/transfer split K = -diag(KD) + KT, and a following "
+               "propagate() and a repeated call give what they gave before",
+         out="the numerical (non-exact) corrections (quadrature loops)")
+def population_corrections_repeat(cx, corrections):
+    from quantarhei import TimeAxis
+    from quantarhei.qm.propagators.poppropagator import PopulationPropagator
+    N = 2
+    with cx.concrete():
+        ta = TimeAxis(0.0, 4, 1.0)
+        ts = TimeAxis(0.0, 3, 1.0)
+    lam = cx.real_array("lam", N)
+    S = cx.real_array("S", (N, N))
+    det = S[0, 0] * S[1, 1] - S[0, 1] * S[1, 0]
+    if cx.sym:
+        from symnum import npatch
+        cx.assume(det == 1, "eig stub: eigenvector matrix normalised to det S = 1")
+        S1 = numpy.array([[S[1, 1], -S[0, 1]], [-S[1, 0], S[0, 0]]], dtype=object)
+        npatch.tag_inverse(S, S1)
+        K = numpy.dot(S, numpy.dot(numpy.diag(lam), S1))
+        old = numpy.linalg.eig
+
+        def eig_stub(A):
+            S_ = S.copy()
+            npatch.tag_inverse(S_, S1)
+            return lam.copy(), S_
+        numpy.linalg.eig = eig_stub
+    else:
+        S = S / numpy.sqrt(abs(det)) if det != 0 else S
+        K = S @ numpy.diag(lam) @ numpy.linalg.inv(S)
+    K0 = numpy.array(K).copy()
+    p0 = cx.real_array("p", N)
+    try:
+        prop = PopulationPropagator(ta, rate_matrix=K)
+        before = prop.propagate(p0).copy()
+        KD, KT = prop._split_relaxation_matrix()
+        for i in range(N):
+            cx.prove_eq("split/diagonal[%d]" % i, KD[i], -K0[i, i])
+            for j in range(N):
+                cx.prove_eq("split/transfer[%d,%d]" % (i, j), KT[i, j], 0 if i == j else K0[i, j])
+        cx.prove_eq("after_split/caller_matrix_unchanged", K, K0)
+        cx.prove_eq("after_split/propagator_matrix_unchanged", prop.KK, K0)
+        cx.assume_denominators_nonzero("distinct depopulation rates (the exact first-order correction divides by their difference)")
+        r1 = prop.get_PropagationMatrix(ts, corrections=corrections, exact=True)
+        cx.assume_denominators_nonzero("distinct depopulation rates")
+        cx.prove_eq("after_corrections/caller_matrix_unchanged", K, K0)
+        cx.prove_eq("after_corrections/propagator_matrix_unchanged", prop.KK, K0)
+        after = prop.propagate(p0)
+        cx.prove_eq("propagate_repeats", after, before)
+        r2 = prop.get_PropagationMatrix(ts, corrections=corrections, exact=True)
+        cx.assume_denominators_nonzero("distinct depopulation rates")
+        cx.prove_eq("propagation_matrix_repeats", r2[0], r1[0])
+        for k, (c1, c2) in enumerate(zip(r1[1] if isinstance(r1[1], tuple) else (r1[1],),
+                                         r2[1] if isinstance(r2[1], tuple) else (r2[1],))):
+            cx.prove_eq("correction_%d_repeats" % k, c2, c1)
+    finally:
+        if cx.sym:
+            numpy.linalg.eig = old
